@@ -133,6 +133,10 @@ def body(case, acc):
 def check_case(case):
     if case.get("kind") == "api":
         return replay_api_history(case)
+    if "big_index" in case:
+        from props import c01
+
+        return body(list(c01.big_cases())[case["big_index"]], None)
     return body(case, None)
 
 
@@ -141,6 +145,19 @@ def run_shard(spec) -> Acc:
     if spec.get("part") == "api":
         machine_shard(spec, acc)
         return acc
+    if spec.get("part") == "big":
+        from props import c01
+
+        for i, case in enumerate(c01.big_cases()):
+            v = body(case, None)
+            acc.evaluations += 1
+            acc.counters["big_stream_cases"] += 1
+            acc.nontrivial.add("big%d" % i)
+            if v is not None and v.signature not in set(spec["known"]):
+                v.case = {"big_index": i}
+                acc.violations.append(v.to_json())
+                break
+        return acc
     hyp_search(case_strategy(), body, acc, seed=spec["seed"] * 1000 + spec["shard"],
                max_examples=spec["n"], known=set(spec["known"]))
     return acc
@@ -148,7 +165,7 @@ def run_shard(spec) -> Acc:
 
 def plan(tier, seed):
     n = 400 if tier == "quick" else 6000
-    specs = [{"shard": i, "n": n} for i in range(13)]
+    specs = [{"shard": i, "n": n} for i in range(12)] + [{"part": "big", "shard": 400}]
     specs += [{"part": "api", "shard": 300 + i, "n": 120 if tier == "quick" else 3000, "steps": 12 if tier == "quick" else 30}
               for i in range(3)]
     return specs
